@@ -27,6 +27,8 @@ func (Driver) Info() core.Info {
 			"unsupported verbs, malformed sequences) with arguments fitted to the verbs, regular expressions from a small RE2 grammar (named/unnamed/mixed groups, invalid patterns), JSON texts written by encoding/json then mutated, " +
 			"JSON-representable and typed values, CSV texts written by encoding/csv plus odd texts, RFC 3339 timestamps (offsets, fractions, leap days, 16 kinds of invalid mutation), durations and date format strings from the verb table. " +
 			"1 case in 64 replaces an argument by null (parameters that do not allow null). Batch 0 adds a fixed corpus (witnesses of every finding, transcribed boundary rows) and five completely enumerated sub-spaces. " +
+			"Every call is made the way a caller holding a longer slice would make it (callerslice.go): the arguments are the first n elements of a backing array with two spare elements of the caller's own, and after the call every element " +
+			"of that array must have the complete internal state (VerifFingerprint) recorded before it; one case in 4 is called a second time through the same slice and must answer as before, and for variadic functions one in 4 is followed by the longer form buf[:n+1] through the full oracle. " +
 			"The real Function.Call runs next to an independent reference computation; the oracle is: error exactly where the reference says the input is outside the documented domain, otherwise the documented result type and a " +
 			"model-equal result (numbers to the stated tolerance); for jsonencode additionally jsondecode(jsonencode(v)) = v. Inputs whose outcome the documentation does not pin are executed (no Go panic; substr results must still " +
 			"be whole clusters) but not asserted and are counted under free:*. distinct = hash of (function, arguments); non-trivial = the reference asserted an outcome for the case",
@@ -94,12 +96,14 @@ type fnDef struct {
 }
 
 const (
-	facetDiffers   = "result differs from the reference"
-	facetType      = "result type differs from the documented type"
-	facetErrInside = "error inside the documented domain"
-	facetNoError   = "no error outside the documented domain"
-	facetUnknown   = "wholly known arguments gave a result that is not wholly known"
-	facetInvariant = "result splits a grapheme cluster of the input"
+	facetDiffers      = "result differs from the reference"
+	facetType         = "result type differs from the documented type"
+	facetErrInside    = "error inside the documented domain"
+	facetNoError      = "no error outside the documented domain"
+	facetUnknown      = "wholly known arguments gave a result that is not wholly known"
+	facetInvariant    = "result splits a grapheme cluster of the input"
+	facetSliceWritten = "the call wrote into the caller's argument slice (an element of its backing array is not the value the caller put there)"
+	facetSecondCall   = "a second call through the same argument slice does not answer as the first call did"
 )
 
 func fmtArgs(a []cty.Value) string {
@@ -154,9 +158,25 @@ func (Driver) Run(c *core.Ctx) {
 	}
 }
 
+// runCase runs one case the way a caller holding a longer argument slice would (callerslice.go): the first call,
+// the check of the caller's slice, and the follow-up calls through the same slice.
 func runCase(c *core.Ctx, idx int64, fd *fnDef, tc tcase) {
-	desc := func() string { return fd.name + "(" + fmtArgs(tc.args) + ")" }
-	c.Begin(idx, desc)
+	cs := newCallerSlice(fd, tc, idx)
+	own := tc.args
+	tc.args = cs.buf
+	c.Begin(idx, func() string { return fd.name + "(" + fmtArgs(own) + ")" })
+	got, err, settled := runCall(c, idx, fd, tc, own, "")
+	cs.after(c, fd, own, "")
+	if settled {
+		cs.followUps(c, idx, fd, tc, own, got, err)
+	}
+}
+
+// runCall makes one call next to the reference. tc.args is the slice the library is given; own holds the same
+// values in a slice of the harness's own, which the reference and the witness use. settled reports that the call
+// returned (value or error) without a Go panic.
+func runCall(c *core.Ctx, idx int64, fd *fnDef, tc tcase, own []cty.Value, prefix string) (got cty.Value, err error, settled bool) {
+	desc := func() string { return prefix + fd.name + "(" + fmtArgs(own) + ")" }
 	site := "stdlib." + fd.name
 
 	// reference first (it never touches the library function under test)
@@ -165,17 +185,15 @@ func runCase(c *core.Ctx, idx int64, fd *fnDef, tc tcase) {
 		if tc.override != nil {
 			exp = *tc.override
 		} else {
-			exp = fd.ref(tc.args)
+			exp = fd.ref(own)
 		}
 	})
 	if ro.Panicked {
 		// a bug in the harness, not in the library: make it loud but distinguishable
 		c.Violate(site, "HARNESS: reference panicked", "", desc(), ro.PanicMsg+"\n"+ro.Stack)
-		return
+		return got, err, false
 	}
 
-	var got cty.Value
-	var err error
 	o := core.Guard(func() { got, err = fd.fn.Call(tc.args) })
 	c.Eval(1)
 	c.Count("fn:" + fd.name)
@@ -187,7 +205,7 @@ func runCase(c *core.Ctx, idx int64, fd *fnDef, tc tcase) {
 
 	if o.Panicked {
 		c.Violate(site, "panic: "+core.PanicClass(o.PanicMsg), exp.class, canon, "Go panic escaped Function.Call: "+o.PanicMsg+"\n"+o.Stack)
-		return
+		return got, err, false
 	}
 	if pe, ok := err.(function.PanicError); ok {
 		msg := fmt.Sprint(pe.Value)
@@ -200,7 +218,7 @@ func runCase(c *core.Ctx, idx int64, fd *fnDef, tc tcase) {
 			c.Count("outside-domain:PanicError:" + fd.name)
 			c.CrossNote("C11", site+": function.PanicError ("+core.PanicClass(msg)+") for input class "+exp.class, canon)
 		}
-		return
+		return got, err, true
 	}
 
 	switch exp.kind {
@@ -271,11 +289,12 @@ func runCase(c *core.Ctx, idx int64, fd *fnDef, tc tcase) {
 	}
 	if fd.name == "jsonencode" && tc.override == nil {
 		representable := len(tc.tags) > 0 && tc.tags[0] == "json-representable"
-		roundTrip(c, tc.args[0], representable)
+		roundTrip(c, own[0], representable)
 	}
 	if c.WantSample() && exp.kind == expValue && err == nil {
-		c.Sample(map[string]any{"fn": fd.name, "args": fmtArgs(tc.args), "result": fmt.Sprintf("%#v", got), "reference": fmt.Sprintf("%#v", exp.val)})
+		c.Sample(map[string]any{"fn": fd.name, "args": fmtArgs(own), "result": fmt.Sprintf("%#v", got), "reference": fmt.Sprintf("%#v", exp.val)})
 	}
+	return got, err, true
 }
 
 func clipMsg(s string) string {
